@@ -75,7 +75,7 @@ func (w *worker) runPath(maxDepth int) (outcome string) {
 	x := &Exec{c: c, prog: w.ld.prog, ld: w.ld, globals: map[*ssa.Global]*Value{}, fcount: map[*ssa.Function]int64{},
 		flagsOf: map[*Value]*FlagSetObj{}, params: w.spec.Params, extUsed: map[string]bool{}, stdInit: map[*ssa.Package]bool{}}
 	x.fs = x.newFS()
-	if c.st.nextID > 3_000_000 {
+	if c.st.nextID > 1_500_000 {
 		// keep memory bounded: fresh term store and solver (definitions are re-sent lazily)
 		c.st = NewStore()
 		c.sol.Restart()
